@@ -1,0 +1,14 @@
+//go:build verif
+
+// Contracts for package copy, read by /verif/gvc (comment-only file; it declares
+// nothing and is compiled only with -tags verif).
+package copy
+
+// DeepCopy returns a map for a map (also for a nil map) and a list for a list; it only
+// allocates.
+//@ func DeepCopy
+//@   property C06
+//@   option prelude=json
+//@   modifies MapD. MapV. MapN SH. alloc
+//@   ensures maps: isAMap(i) ==> isAMap(result)
+//@   ensures lists: isAList(i) ==> isAList(result)
